@@ -16,6 +16,7 @@
 package main
 
 import (
+	"crypto/sha256"
 	"encoding/json"
 	"fmt"
 	"math/big"
@@ -35,12 +36,14 @@ type blockIn struct {
 	IC  []clx.ICEntry `json:"ic"`
 	Tag uint64        `json:"tag"`
 	W   int           `json:"w"`
+	Big int           `json:"big"` // additionally change this many state keys of one contract (a LARGE block)
 }
 type caseIn struct {
 	LDB    string    `json:"ldb"` // leveldb_type of both stores: "normal" (default) or "multi"
 	Blocks []blockIn `json:"blocks"`
 	N      int       `json:"n"`
 	Units  int       `json:"units"`
+	SKeep  *int      `json:"skeep"` // if set: exactly the first skeep state-store batch commits of the crash block are durable (overrides the State/Prune bits)
 }
 type lobs struct {
 	Chain   clx.Obs  `json:"chain"`
@@ -49,18 +52,20 @@ type lobs struct {
 	Data    []uint64 `json:"data"`
 }
 type caseOut struct {
-	Entries  []clx.Entry      `json:"entries"`
-	UH       []uint64         `json:"uh"`
-	UT       []uint64         `json:"ut"`
-	HashTbl  [][2]interface{} `json:"hash_tbl"`
-	RootTbl  [][2]interface{} `json:"root_tbl"`
-	SrootTbl [][3]uint64      `json:"sroot_tbl"`
-	Refs     []*lobs          `json:"refs"`
-	Rec      int              `json:"rec"`
-	Obs1     *lobs            `json:"obs1"`
-	Cont     int              `json:"cont"`
-	Obs2     *lobs            `json:"obs2"`
-	RecErr   string           `json:"rec_err,omitempty"`
+	Entries      []clx.Entry      `json:"entries"`
+	UH           []uint64         `json:"uh"`
+	UT           []uint64         `json:"ut"`
+	HashTbl      [][2]interface{} `json:"hash_tbl"`
+	RootTbl      [][2]interface{} `json:"root_tbl"`
+	SrootTbl     [][3]uint64      `json:"sroot_tbl"`
+	Refs         []*lobs          `json:"refs"`
+	StateCommits int              `json:"state_commits"` // batch commits the state store saw while the crash block was committed
+	ChainCommits int              `json:"chain_commits"`
+	Rec          int              `json:"rec"`
+	Obs1         *lobs            `json:"obs1"`
+	Cont         int              `json:"cont"`
+	Obs2         *lobs            `json:"obs2"`
+	RecErr       string           `json:"rec_err,omitempty"`
 }
 
 // ---------------------------------------------------------------- dropping batches
@@ -69,6 +74,7 @@ type dropCtl struct {
 	active bool
 	count  int
 	drop   map[int]bool // batch number (in commit order while active) -> dropped
+	keep   int          // >= 0: exactly the first keep batches are durable (overrides drop)
 }
 type dropStore struct {
 	storage.Storage
@@ -86,7 +92,7 @@ func (b *dropBatch) Commit() {
 	if b.ctl.active {
 		k := b.ctl.count
 		b.ctl.count++
-		if b.ctl.drop[k] {
+		if (b.ctl.keep >= 0 && k >= b.ctl.keep) || (b.ctl.keep < 0 && b.ctl.drop[k]) {
 			return // the process died before this batch reached the disk
 		}
 	}
@@ -94,6 +100,8 @@ func (b *dropBatch) Commit() {
 }
 
 // ---------------------------------------------------------------- executing blocks
+
+var bigAcct = types.NewAddress([]byte("verif-crash-acct-big"))
 
 var accts = []*types.Address{
 	types.NewAddress([]byte("verif-crash-acct-000")), types.NewAddress([]byte("verif-crash-acct-001")),
@@ -103,7 +111,10 @@ var accts = []*types.Address{
 func simple(s *clx.Stores) *ledger.SimpleLedger { return s.Ledger.StateLedger.(*ledger.SimpleLedger) }
 
 // the writes of the block whose delta id is w
-func applyDelta(s *clx.Stores, w int) {
+func applyDelta(s *clx.Stores, w, nbig int) {
+	for i := 0; i < nbig; i++ {
+		s.Ledger.SetState(bigAcct, []byte(fmt.Sprintf("b%05d", i)), []byte(fmt.Sprintf("w%d-%d", w, i)), nil)
+	}
 	a := accts[w%3]
 	s.Ledger.SetBalance(a, big.NewInt(int64(1000+w)))
 	s.Ledger.SetState(a, []byte(fmt.Sprintf("k%d", w%2)), []byte(fmt.Sprintf("v%d", w)), nil)
@@ -120,9 +131,17 @@ func applyDelta(s *clx.Stores, w int) {
 	}
 }
 
-// dump of everything any delta can touch
-func dump(s *clx.Stores) string {
+// dump of everything any delta can touch (maxBig: the largest "big" of any block)
+func dump(s *clx.Stores, maxBig int) string {
 	var sb strings.Builder
+	if maxBig > 0 {
+		hs := sha256.New()
+		for i := 0; i < maxBig; i++ {
+			ok, v := s.Ledger.GetState(bigAcct, []byte(fmt.Sprintf("b%05d", i)))
+			fmt.Fprintf(hs, "%v:%q;", ok, v)
+		}
+		sb.WriteString(fmt.Sprintf("big:%x;", hs.Sum(nil)))
+	}
 	for _, a := range accts {
 		sb.WriteString(s.Ledger.GetBalance(a).String())
 		for _, k := range []string{"k0", "k1", "h", "e"} {
@@ -142,6 +161,7 @@ type world struct {
 	blocks  []blockIn
 	entries map[int]clx.Entry // by height, from the uncrashed run
 	dumps   []string          // state dump of the uncrashed node at height h
+	maxBig  int
 }
 
 // execute block h (1-based) on the ledger as it is: seal against its chain meta and state root
@@ -149,7 +169,7 @@ func (w *world) execute(s *clx.Stores, h int, record bool) {
 	b := w.blocks[h-1]
 	meta := s.CL.GetChainMeta()
 	_, _, prev := simple(s).VerifJournalRange()
-	applyDelta(s, b.W)
+	applyDelta(s, b.W, b.Big)
 	accounts, root := s.Ledger.FlushDirtyData()
 	w.sroot[[2]uint64{w.t.In.Hash(prev), uint64(b.W)}] = w.t.In.Hash(root)
 	blk, rcs, im, e := clx.Seal(w.t, h, meta.Height+1, meta.BlockHash, root, b.Txs, -1, b.IC, b.Tag, 0)
@@ -164,7 +184,7 @@ func (w *world) observe(s *clx.Stores, kh int, uh, ut []*types.Hash) *lobs {
 	o.Version = s.Ledger.Version()
 	_, _, prev := simple(s).VerifJournalRange()
 	o.Root = w.t.In.Hash(prev)
-	d := dump(s)
+	d := dump(s, w.maxBig)
 	o.Data = []uint64{999999}
 	for k := len(w.dumps) - 1; k >= 0; k-- {
 		if w.dumps[k] == d {
@@ -205,6 +225,11 @@ func runCase(line []byte) (interface{}, error) {
 		return nil, fmt.Errorf("need 0 <= n < number of blocks")
 	}
 	w := &world{t: clx.NewTables(), sroot: map[[2]uint64]uint64{}, blocks: c.Blocks, entries: map[int]clx.Entry{}}
+	for _, b := range c.Blocks {
+		if b.Big > w.maxBig {
+			w.maxBig = b.Big
+		}
+	}
 	kh := N + 1
 	// universe of transaction hashes
 	var ut []*types.Hash
@@ -233,13 +258,13 @@ func runCase(line []byte) (interface{}, error) {
 			return nil, err
 		}
 		if pass == 1 {
-			w.dumps = []string{dump(s)}
+			w.dumps = []string{dump(s, w.maxBig)}
 		}
 		for h := 1; h <= N; h++ {
 			w.execute(s, h, pass == 1)
 			if pass == 1 {
 				uh = append(uh, s.CL.GetChainMeta().BlockHash)
-				w.dumps = append(w.dumps, dump(s))
+				w.dumps = append(w.dumps, dump(s, w.maxBig))
 			} else if h == c.N || h == c.N+1 || h == N {
 				refs[h] = w.observe(s, kh, uh, ut)
 			}
@@ -270,7 +295,10 @@ func runCase(line []byte) (interface{}, error) {
 		return nil, err
 	}
 	defer os.RemoveAll(dir)
-	cctl, sctl := &dropCtl{drop: map[int]bool{}}, &dropCtl{drop: map[int]bool{}}
+	cctl, sctl := &dropCtl{drop: map[int]bool{}, keep: -1}, &dropCtl{drop: map[int]bool{}, keep: -1}
+	if c.SKeep != nil {
+		sctl.keep = *c.SKeep
+	}
 	has := func(bit int) bool { return c.Units&(1<<uint(bit)) != 0 }
 	sctl.drop[0] = !has(0) // StateBatch
 	sctl.drop[1] = !has(1) // PruneBatch (the second state-store batch, at pruning heights only)
@@ -291,6 +319,7 @@ func runCase(line []byte) (interface{}, error) {
 	cctl.active, sctl.active = true, true
 	w.execute(s, c.N+1, false)
 	// process death: nothing else reaches the disk
+	out.StateCommits, out.ChainCommits = sctl.count, cctl.count
 	s.Close()
 	for bit, name := range tableOf {
 		if has(bit) {
